@@ -34,7 +34,9 @@ ASSUMPTIONS = [
 MINIMA = {"quick": {"reads_compared": 3000, "boundary_straddling_requests": 500, "sesparse_extents": 10, "hdd_cases": 20, "special_name_cases": 30, "multi_extent_delta_cases": 8},
           "thorough": {"reads_compared": 300000}}
 MECH = "multi-extent"
-NAMES = ["disk", "my disk", "Windows 10 x64 #2", "d (copy)", "dísk-ü", "диск", "磁盘", "disk😀", "a'b", 'q"uote', "x #1 y", "sp  ace", "tab-x", "100% real", "semi;colon", "eq=sign"]
+NAMES = ["disk", "my disk", "Windows 10 x64 #2", "d (copy)", "dísk-ü", "диск", "磁盘", "disk😀", "a'b", 'q"uote', "x #1 y", "sp  ace", "tab-x", "100% real", "semi;colon", "eq=sign",
+         # an embedded quote followed by a blank and a few tokens (looks like the end of the quoted name, is not)
+         'my "old" 2 disk', 'q" 5 b', 'copy" 0 x y', 'end" 7']
 
 
 def plan(tier: str, seed: int) -> list[dict]:
@@ -202,6 +204,7 @@ def run(case: dict, ctx) -> dict:
     storages, files, parts = [], {}, []
     start = 0
     kinds = []
+    same_names = rng.random() < 0.3
     for j in range(nst):
         if rng.random() < 0.7:
             ms = rng.choice([1, 8, 16, 64])
@@ -216,6 +219,9 @@ def run(case: dict, ctx) -> dict:
             typ = "Plain"
             parts.append(Model(meta["size"], [layer]))
         fn = f"m.hdd.{j}.{g}.hds"
+        if same_names:
+            # images of the same base name in per-storage sub-directories of the bundle
+            fn = f"part{j}/data.hds"
         files[fn] = sf
         kinds.append(typ)
         storages.append({"start": start, "end": start + nsec, "images": [{"guid": g, "type": typ, "file": fn}]})
@@ -240,6 +246,7 @@ def run(case: dict, ctx) -> dict:
     compare_reads(st, model, reqs, res, MECH)
     cnt["boundary_straddling_requests"] = sum(1 for o_, n_ in reqs for b in bounds[:-1] if o_ < b < o_ + n_)
     cnt["hdd_cases"] = 1
+    cnt["hdd_same_base_name_in_subdirs"] = int(same_names)
     res["sets"]["storage_kind_sequences"] = ["+".join(kinds)]
     res["nontrivial"] = True
     res["sig"] = ("hdd", tuple(kinds), tuple(s["end"] for s in storages))
